@@ -13,11 +13,19 @@ type enumItemValue struct {
 func newEnumItem(b jbytes.Bytes) enumItemValue {
 	b = b.TrimSpaces()
 	t := jjson.Guess(b).JsonType()
-	if t == jjson.TypeString {
-		b = b.Unquote()
+	v := b.String()
+	switch t {
+	case jjson.TypeString:
+		v = b.Unquote().String()
+	case jjson.TypeInteger, jjson.TypeFloat:
+		// Numbers of the same type are the same value whatever the spelling is:
+		// 1.0 and 1.00, 0 and -0.
+		if n, err := jjson.NewNumber(b); err == nil {
+			v = n.String()
+		}
 	}
 	return enumItemValue{
-		value:    b.String(),
+		value:    v,
 		jsonType: t,
 	}
 }
